@@ -30,7 +30,8 @@ pub struct Plan {
     pub property: String,
     pub mode: String,
     pub seed: u64,
-    /// 0 chunk-like opaque versions, 1 register, 2 transactions, 3 scratchpad, 4 mixed kinds
+    /// 0 chunk-like opaque versions, 1 register, 2 transactions, 3 scratchpad, 4 mixed kinds,
+    /// 5 transactions with one opaque (non-transaction) version among them
     pub kind: u8,
     pub n_versions: u8,
     /// per version a content parameter (register/tx: bit mask of members incl. invalid ones;
@@ -66,8 +67,9 @@ impl Sim for GetRecordSim {
 
     fn generate(rng: &mut Rng, ctx: &GenCtx) -> Plan {
         let adversarial = ctx.mode == "adversarial";
-        let kind = if adversarial && rng.chance(1, 8) { 4 } else { rng.below(4) as u8 };
-        let n_versions = if rng.chance(1, 3) { 1 } else { rng.range(2, 4) as u8 };
+        // 5 = transaction versions plus one copy that is no transaction record (a corrupt / foreign copy from one holder)
+        let kind = if adversarial && rng.chance(1, 8) { 4 } else if adversarial && rng.chance(1, 8) { 5 } else { rng.below(4) as u8 };
+        let n_versions = if kind == 5 { rng.range(3, 4) as u8 } else if rng.chance(1, 3) { 1 } else { rng.range(2, 4) as u8 };
         let big = rng.chance(1, 40);
         let version_params: Vec<u32> = (0..n_versions)
             .map(|i| match kind {
